@@ -324,6 +324,22 @@ def run_entry_points(ctx: Ctx) -> None:
                         return False, "grid " + msg
                     if not teq(it.method(f, "tensor") if hasattr(f, "x") else f.plain(), data):
                         return False, "write() changed the flow field"
+                    # explicit storage axes: write(path, axes=B) stores the vectors re-expressed in B; read(path, axes=B) labels them B
+                    for other in ("GRID", "CUBE_CORNERS"):
+                        Bx = it.enum(env.Axes, other)
+                        p2 = f"/vfs/flow_{other}{ext}"
+                        it.method(f, "write", p2, axes=Bx)
+                        raw2, _g2 = it.call(prog.func("deepali.utils.imageio", "read_image"), p2)
+                        want2 = it.method(f, "axes", Bx).plain()
+                        if not teq(raw2, want2):
+                            return False, f"FlowField(axes={axes}).write(path, axes={other}) does not store the vectors in {other} units"
+                        r2 = it.method(tae.ClassVal(FlowField), "read", p2, axes=Bx)
+                        if it.method(r2, "axes") != Bx or not teq(it.method(r2, "axes", A).plain(), data):
+                            return False, f"write(path, axes={other}) / read(path, axes={other}) does not restore the original field"
+                        sim2 = it.method(f, "sitk", Bx)
+                        ok, msg = sitk_expect(env, sim2, STensor(list(want2.flat()), list(range(want2.numel())), list(want2.shape), IO.dt("float32")), geo, f"FlowField.sitk(axes={other})")
+                        if not ok:
+                            return False, msg
                     # SimpleITK route
                     sim = it.method(f, "sitk")
                     ok, msg = sitk_expect(env, sim, STensor(list(wdata.flat()), list(range(wdata.numel())), list(wdata.shape), IO.dt("float32")), geo, "FlowField.sitk()")
